@@ -42,48 +42,134 @@ static const char *const fixed_formats[] = {
 };
 #define NFIXED (sizeof(fixed_formats) / sizeof(*fixed_formats))
 
-static void format_make(format *f, vf_rng *r)
+/*
+ * What a description means (layout of mpt_parse_format(), defaults of
+ * MPT_PARSER_FORMAT_INIT): [0] section start, [1] family, [2] section end,
+ * [3] option start, [4] assign, [5] option end - a blank there means "none" -
+ * [6..] up to four comment characters, blanks, up to three escape characters;
+ * whatever the description is too short for keeps its default.
+ * Returns 0 when the lists are longer than their fields (meaning not stated).
+ */
+static int blank_none(char c) { return isspace((unsigned char) c) ? 0 : (unsigned char) c; }
+static int expect_format(const char *s, MPT_STRUCT(parser_format) *e, int *family)
+{
+	static const MPT_STRUCT(parser_format) def = MPT_PARSER_FORMAT_INIT;
+	size_t n = strlen(s), i, k;
+	*e = def;
+	*family = '*';
+	if (n < 1) return 1;
+	e->sstart = (uint8_t) blank_none(s[0]);
+	if (n < 2) return 1;
+	*family = (unsigned char) s[1];
+	if (n < 3) return 1;
+	e->send = (uint8_t) blank_none(s[2]);
+	if (n < 4) return 1;
+	e->ostart = (uint8_t) blank_none(s[3]);
+	if (n < 5) return 1;
+	e->assign = (uint8_t) blank_none(s[4]);
+	if (n < 6) return 1;
+	e->oend = (uint8_t) blank_none(s[5]);
+	if (n < 7) return 1;
+	memset(e->com, 0, sizeof(e->com));
+	for (i = 6, k = 0; s[i] && !isspace((unsigned char) s[i]); i++) {
+		if (k == sizeof(e->com)) return 0;
+		e->com[k++] = (uint8_t) s[i];
+	}
+	while (s[i] && isspace((unsigned char) s[i])) i++;
+	if (!s[i]) return 1;
+	memset(e->esc, 0, sizeof(e->esc));
+	for (k = 0; s[i] && !isspace((unsigned char) s[i]); i++) {
+		if (k == sizeof(e->esc)) return 0;
+		e->esc[k++] = (uint8_t) s[i];
+	}
+	return 1;
+}
+static void build_format(char *str, vf_rng *r)
 {
 	static const char delim[] = "{}[]()<>|=:;,!#%\"'`\\/@a1 ";
 	static const char types[] = "*x _";
+	size_t n = 0;
+	str[n++] = delim[vf_below(r, sizeof(delim) - 1)];
+	str[n++] = vf_chance(r, 1, 25) ? "q-X0"[vf_below(r, 4)] : types[vf_below(r, 4)];
+	str[n++] = vf_chance(r, 1, 4) ? str[0] : delim[vf_below(r, sizeof(delim) - 1)];
+	str[n++] = vf_chance(r, 3, 4) ? ' ' : delim[vf_below(r, sizeof(delim) - 1)];
+	str[n++] = vf_chance(r, 2, 3) ? "=:"[vf_below(r, 2)] : delim[vf_below(r, sizeof(delim) - 1)];
+	str[n++] = vf_chance(r, 1, 2) ? "; "[vf_below(r, 2)] : delim[vf_below(r, sizeof(delim) - 1)];
+	/* comment list (0..5 characters: one more than there are fields), sometimes the escape or a delimiter character */
+	for (uint32_t k = vf_chance(r, 1, 12) ? 5 : vf_below(r, 5); k; k--) {
+		char c = delim[vf_below(r, sizeof(delim) - 2)];
+		str[n++] = vf_chance(r, 1, 6) ? str[vf_below(r, 6)] : c;
+		if (str[n - 1] == ' ') str[n - 1] = '#';
+	}
+	if (vf_chance(r, 1, 2)) {
+		str[n++] = vf_chance(r, 1, 8) ? '\t' : ' ';
+		if (vf_chance(r, 1, 8)) str[n++] = ' ';
+		for (uint32_t k = vf_chance(r, 1, 12) ? 4 : vf_below(r, 4); k; k--) {
+			char c = delim[vf_below(r, sizeof(delim) - 2)];
+			str[n++] = vf_chance(r, 1, 6) ? str[vf_below(r, 6)] : c;
+			if (str[n - 1] == ' ') str[n - 1] = '"';
+		}
+		if (vf_chance(r, 1, 10)) { str[n++] = ' '; str[n++] = 'z'; }
+	}
+	if (vf_chance(r, 1, 10)) n = vf_below(r, (uint32_t) n + 1);
+	str[n] = 0;
+}
+static char *format_make(format *f, vf_rng *r)
+{
+	static const char *const lencount[] = {
+		"format:length-0", "format:length-1", "format:length-2", "format:length-3", "format:length-4",
+		"format:length-5", "format:length-6", "format:length-7", "format:length-8", "format:length>8"
+	};
+	MPT_STRUCT(parser_format) want;
 	uint32_t sel = vf_below(r, 100);
+	char *desc = 0;
+	size_t len;
+	int family, stated;
+
 	memset(f, 0, sizeof(*f));
 	if (sel < 4) {
 		f->null = 1;
-	} else if (sel < 64) {
+	} else if (sel < 50) {
 		strcpy(f->str, fixed_formats[vf_below(r, NFIXED)]);
+	} else if (sel < 68) {
+		/* every length 0..8: a fixed or built description cut there */
+		if (vf_chance(r, 1, 2)) strcpy(f->str, fixed_formats[vf_below(r, NFIXED)]);
+		else build_format(f->str, r);
+		len = vf_below(r, 9);
+		if (len < strlen(f->str)) f->str[len] = 0;
 	} else {
-		size_t n = 0;
-		f->str[n++] = delim[vf_below(r, sizeof(delim) - 1)];
-		f->str[n++] = vf_chance(r, 1, 25) ? "q-X0"[vf_below(r, 4)] : types[vf_below(r, 4)];
-		f->str[n++] = vf_chance(r, 1, 4) ? f->str[0] : delim[vf_below(r, sizeof(delim) - 1)];
-		f->str[n++] = vf_chance(r, 3, 4) ? ' ' : delim[vf_below(r, sizeof(delim) - 1)];
-		f->str[n++] = vf_chance(r, 2, 3) ? "=:"[vf_below(r, 2)] : delim[vf_below(r, sizeof(delim) - 1)];
-		f->str[n++] = vf_chance(r, 1, 2) ? "; "[vf_below(r, 2)] : delim[vf_below(r, sizeof(delim) - 1)];
-		for (uint32_t k = vf_below(r, 5); k; k--) {
-			char c = delim[vf_below(r, sizeof(delim) - 2)];
-			/* comment list: sometimes the escape or a delimiter character */
-			f->str[n++] = vf_chance(r, 1, 6) ? f->str[vf_below(r, 6)] : c;
-			if (f->str[n - 1] == ' ') f->str[n - 1] = '#';
-		}
-		if (vf_chance(r, 1, 2)) {
-			f->str[n++] = ' ';
-			for (uint32_t k = vf_below(r, 4); k; k--) {
-				char c = delim[vf_below(r, sizeof(delim) - 2)];
-				f->str[n++] = vf_chance(r, 1, 6) ? f->str[vf_below(r, 6)] : c;
-				if (f->str[n - 1] == ' ') f->str[n - 1] = '"';
-			}
-		}
-		if (vf_chance(r, 1, 10)) n = vf_below(r, (uint32_t) n + 1);
-		f->str[n] = 0;
+		build_format(f->str, r);
 	}
+	if (!f->null) {
+		/* exact-size block: reading behind the terminator is an ASan report */
+		len = strlen(f->str);
+		desc = vf_xalloc(len + 1);
+		memcpy(desc, f->str, len + 1);
+		vf_count(lencount[len > 8 ? 9 : len], 1);
+	}
+	memset(&f->pf, 0xa5, sizeof(f->pf));
 	vf_at("mpt_parse_format");
 	vf_count("mpt_parse_format", 1);
-	f->type = mpt_parse_format(&f->pf, f->null ? 0 : f->str);
+	f->type = mpt_parse_format(&f->pf, desc);
+	stated = expect_format(f->str, &want, &family);
+	if (stated) {
+		const uint8_t *g = (const uint8_t *) &f->pf, *w = (const uint8_t *) &want;
+		VF_CHECK(f->type == family, "model:parse_format:family", "mpt_parse_format(%s%s%s) returned '%c' (%d), expected '%c'",
+		         f->null ? "" : "\"", f->null ? "NULL" : f->str, f->null ? "" : "\"", f->type, f->type, family);
+		VF_CHECK(!memcmp(&f->pf, &want, sizeof(want)), "model:parse_format:fields",
+		         "mpt_parse_format(%s%s%s): start end ostart assign oend esc[3] com[4] = %02x %02x %02x %02x %02x  %02x %02x %02x  %02x %02x %02x %02x, "
+		         "expected %02x %02x %02x %02x %02x  %02x %02x %02x  %02x %02x %02x %02x",
+		         f->null ? "" : "\"", f->null ? "NULL" : f->str, f->null ? "" : "\"",
+		         g[0], g[1], g[2], g[3], g[4], g[5], g[6], g[7], g[8], g[9], g[10], g[11],
+		         w[0], w[1], w[2], w[3], w[4], w[5], w[6], w[7], w[8], w[9], w[10], w[11]);
+		vf_count("monitor:format-fields-checked", 1);
+		if (!f->null && strlen(f->str) > 6) vf_count("monitor:format-lists-checked", 1);
+	}
+	else vf_count("format:list-longer-than-field", 1);
 	vf_at("mpt_parse_next_fcn");
 	f->next = mpt_parse_next_fcn(f->type);
+	return desc;
 }
-
 /* ------------------------------------------------------- document generator */
 static const char *const vocab[] = { "a", "b", "c", "ab", "x", "y", "name", "n1", "sect", "opt", "k", "zz" };
 #define NVOCAB (sizeof(vocab) / sizeof(*vocab))
@@ -378,7 +464,7 @@ void c08_case_make(c08_case *c, vf_rng *r)
 	uint32_t kind;
 
 	memset(c, 0, sizeof(*c));
-	format_make(&f, r);
+	c->desc = format_make(&f, r);
 	memcpy(c->fmt, f.str, sizeof(c->fmt));
 	c->fmt_null = f.null;
 	c->type = f.type;
@@ -430,4 +516,6 @@ void c08_case_free(c08_case *c)
 	free(c->doc);
 	c->doc = 0;
 	c->len = 0;
+	if (c->desc) vf_xfree(c->desc, strlen(c->desc) + 1);
+	c->desc = 0;
 }
